@@ -406,7 +406,7 @@ func (g *FuncGen) builtin(b *ssa.Builtin, cc *ssa.CallCommon, res ssa.Value, in 
 	case "append":
 		return g.appendBuiltin(cc, res, in)
 	case "copy":
-		g.unsup("copy builtin")
+		return g.copyBuiltin(cc, res)
 	case "delete":
 		m := g.mapType(cc.Args[0].Type())
 		mv := g.value(cc.Args[0])
@@ -589,6 +589,47 @@ func (g *FuncGen) appendBuiltin(cc *ssa.CallCommon, res ssa.Value, in ssa.Instru
 		return nil
 	}
 	v := g.define(res, result)
+	return &v
+}
+
+// copy(dst, src) for slices of a non-struct element type (memmove semantics: the source is read in the state
+// before the call, so overlapping ranges are handled); returns min(len(dst), len(src)).
+func (g *FuncGen) copyBuiltin(cc *ssa.CallCommon, res ssa.Value) *Val {
+	c := g.c
+	dt, ok := cc.Args[0].Type().Underlying().(*types.Slice)
+	if !ok || isStructType(dt.Elem()) {
+		g.unsup("copy to %s", cc.Args[0].Type())
+	}
+	if isString(cc.Args[1].Type()) {
+		g.unsup("copy(bytes, string)")
+	}
+	d, s := g.value(cc.Args[0]), g.value(cc.Args[1])
+	cl := c.elemClass(dt.Elem())
+	es := c.sortOf(dt.Elem())
+	i64 := c.intSort(64)
+	heap := g.heapOf(g.cur, cl)
+	dlen, slen := fmt.Sprintf("(s_len %s)", d.T), fmt.Sprintf("(s_len %s)", s.T)
+	n := c.fresh("copied", i64)
+	c.assert(eq(n, ite(g.le64(dlen, slen), dlen, slen)))
+	doff, soff := fmt.Sprintf("(s_off %s)", d.T), fmt.Sprintf("(s_off %s)", s.T)
+	oldD := fmt.Sprintf("(select %s (s_arr %s))", heap, d.T)
+	srcD := fmt.Sprintf("(select %s (s_arr %s))", heap, s.T)
+	na := c.fresh("copydst", fmt.Sprintf("(Array %s %s)", i64, es))
+	c.useQuant = true
+	c.assert(fmt.Sprintf("(forall ((i %s)) (= (select %s i) (ite %s (select %s %s) (select %s i))))", i64, na,
+		and(g.le64(doff, "i"), g.lt64("i", g.add64(doff, n))), srcD, g.add64(soff, g.sub64("i", doff)), oldD))
+	// ground instances for short copies (fixed-size key/value fields)
+	for j := 0; j < 8; j++ {
+		jj := c.intLit64(int64(j), 64)
+		c.assert(implies(g.lt64(jj, n), eq(fmt.Sprintf("(select %s %s)", na, g.add64(doff, jj)), fmt.Sprintf("(select %s %s)", srcD, g.add64(soff, jj)))))
+	}
+	nh := c.fresh(cl, c.classes[cl])
+	c.assert(eq(nh, fmt.Sprintf("(store %s (s_arr %s) %s)", heap, d.T, na)))
+	g.cur.heap[cl] = nh
+	if res == nil {
+		return nil
+	}
+	v := g.define(res, n)
 	return &v
 }
 
@@ -1464,6 +1505,9 @@ func (g *FuncGen) callWrites(cc *ssa.CallCommon) ([]string, bool) {
 			}
 			return nil, true
 		case "copy":
+			if st, ok := cc.Args[0].Type().Underlying().(*types.Slice); ok && !isStructType(st.Elem()) {
+				return []string{c.elemClass(st.Elem())}, false
+			}
 			return nil, true
 		}
 		return nil, false
